@@ -218,6 +218,12 @@ let run_case (lines : string list) =
        | "P.setu" -> let v = tk_u tk in setp (M.set_usize1 !pp v)
        | "P.setf" -> let v = tk_flt tk in setp (M.set_floats !pp [v] [])
        | "P.sets" -> let v = tk_str tk in setp (M.set_strs !pp [v] [])
+       | "P.as" -> let ty = next tk in let p = !pp in
+           (match ty with
+           | "C" -> on_outcome (M.values_as_string p) (fun v -> pr "ok%s\n" (String.concat "" (List.map (fun e -> " " ^ hexs e) v)))
+           | "B" -> on_outcome (M.values_as_byte p) (fun v -> pr "ok%s\n" (String.concat "" (List.map (fun e -> " " ^ sz e) v)))
+           | "I" -> on_outcome (M.values_as_int p) (fun v -> pr "ok%s\n" (String.concat "" (List.map (fun e -> " " ^ sz e) v)))
+           | _ -> on_outcome (M.values_as_float p) (fun v -> pr "ok%s\n" (String.concat "" (List.map (fun e -> " " ^ hexf e) v))))
        | "P.show" -> pr "ok %s\n" (param_body !pp)
        | "param" -> let k = tk_int tk in let g = tk_str tk in apply k (M.OParam (g, !pp))
        | "lock" -> let k = tk_int tk in let g = tk_str tk in apply k (M.OLock g)
@@ -244,6 +250,8 @@ let run_case (lines : string list) =
          on_outcome (M.h_add_ch !heap (rg j) s (M.lit_chan n v)) (fun h -> heap := h; pr "ok\n")
        | "F.show" -> let j = tk_int tk in dump_frame (M.h_view !heap (rg j)) 0; pr "E\n"
        | "frameR" -> let k = tk_int tk in let idx = tk_idx tk in let j = tk_int tk in apply k (M.OFrame (M.h_view !heap (rg j), idx))
+       | "frameD" -> let k = tk_int tk in let idx = tk_idx tk in let f = tk_u tk in
+         on_outcome (M.at_ (o k).M.frames f) (fun fr -> apply k (M.OFrame (fr, idx)))
        | "pointcolR" | "analogcolR" ->
          let k = tk_int tk in let n = tk_int tk in
          let fs = List.init n (fun _ -> M.h_view !heap (rg (tk_int tk))) in
